@@ -74,7 +74,7 @@ impl Engine for C01 {
         format!(
             "every word of length <= {} over the {}-symbol alphabet SIGMA and of length {} over the {}-symbol CORE, each joined by ' ', '' and LF; \
              every seed/corpus file, every character-boundary prefix of the seeds and the corpus files <= 8 KiB, every line-boundary prefix of corpus files <= {}; \
-             every single-token deletion/duplication/transposition/replacement (16 tokens) of the seeds{}; CRLF and non-ASCII injected variants. \
+             every single-token deletion/duplication/transposition/replacement (16 tokens) of the seeds{}; CRLF and non-ASCII injected variants; nesting towers of depth 0..=320 of 18 recursive constructs, closed and cut after two thirds (on a 256 MiB stack: losslessness has no nesting bound). \
              Cases are distinct descriptors by construction of the enumeration; non-trivial = contains a trivia, lexical-error, preprocessor or non-ASCII symbol, or is a program-derived text.",
             tier.pick(3, 4),
             space::SIGMA.len(),
@@ -108,6 +108,37 @@ impl Engine for C01 {
         space::for_each_word(tier, ctx, |ctx, text, special| run(ctx, text, special, Stratum::Word));
         let files = space::files();
         space::for_each_program_text(tier, ctx, &files, |ctx, text, st| run(ctx, text, true, st));
+        // nesting towers of every recursive construct up to depth 320 (closed and left open), on a stack large
+        // enough that depth is no issue here: losslessness has no nesting bound (C02's 256 is about the stack)
+        let r = tgv_core::guard_on_stack(256 * 1024 * 1024, || {
+            for t in crate::c02::TOWERS {
+                for depth in (0..=320usize).rev() {
+                    if !ctx.mine() {
+                        continue;
+                    }
+                    let full = crate::c02::tower(t, depth);
+                    let cut = full.len() - full.len() / 3;
+                    let mut open = cut;
+                    while !full.is_char_boundary(open) {
+                        open -= 1;
+                    }
+                    for text in [full.as_str(), &full[..open]] {
+                        ctx.trace(|| json!({ "text": text }));
+                        ctx.case(true);
+                        ctx.add("towers", 1);
+                        if let Some((clause, detail)) = check_lossless(text) {
+                            ctx.fail(failure(text, clause, detail));
+                        }
+                    }
+                    if ctx.expired() {
+                        return;
+                    }
+                }
+            }
+        });
+        if let Err(p) = r {
+            panic!("harness panic: {} at {}", p.message, p.location);
+        }
     }
 
     fn eval_case(&self, case: &Value) -> Vec<Failure> {
